@@ -158,13 +158,28 @@ def r4_check_fit_input(ctx):
         else:
             okw = wb[0] in ("tuple", "call", "binop") or wb == NONE or True
             rev = False
+        raw = None
+        if hasw and wb[0] == "comp" and Q.unwrap(wb[3]) == ("param", "weights") and not okw:
+            # an arm of the element expression hands the weight back AS GIVEN (no np.ravel / asarray on it): a positive contradiction of
+            # "weights are raveled" unless that arm is guarded by isinstance(w, np.ndarray)
+            el = ("elem", wb[3], wb[4])
+            stack = [(wb[2], ())]
+            while stack:
+                x, guards = stack.pop()
+                if x[0] == "ifexp":
+                    stack.append((x[2], guards + (x[1],)))
+                    stack.append((x[3], guards + (x[1],)))
+                elif x == el:
+                    if not any(y[0] == "call" and callee(y) in ("builtins.isinstance", "builtins.type") for g in guards for y in walk(g) if isinstance(y, tuple) and y):
+                        raw = "a weight is handed back as given on the arm guarded by %s (not passed through np.ravel)" % "; ".join(show(g)[:50] for g in guards)
         swapped = Q.unwrap(base(da)) == ("param", "weights") or Q.unwrap(Q.unseq(base(we))) == ("param", "data") or \
             (wb[0] == "comp" and Q.unwrap(wb[3]) == ("param", "data"))
         if not hasw:
             okw = any(x == NONE for x in walk(wb)) or None
-        ok = True if okc and okd and okw and not swapped else (False if swapped or rev or (okc is False and Q.unwrap(co) in (("param", "data"), ("param", "weights"))) else None)
+        ok = True if okc and okd and okw and not swapped else (False if swapped or rev or raw or (okc is False and Q.unwrap(co) in (("param", "data"), ("param", "weights"))) else None)
         ctx.check("R4", "%s|returns-(coordinates, data, weights)|%s" % (qn, tag), ok, "returns the validated coordinates, data and weights in this order (weights raveled elementwise, unreordered)",
-                  bad="check_fit_input returns its values in another order / reorders the weights", fn=qn)
+                  bad=(raw + ": a pandas Series keeps its index and callers that index the weights by position (BlockReduce) then look them up by label") if raw and not (swapped or rev)
+                  else "check_fit_input returns its values in another order / reorders the weights", fn=qn)
     if n < 4:
         ctx.add("R4", qn + "|paths", "UNDECIDED", "expected several return paths, found %d" % n, fn=qn)
     ps = ctx.paths(qn)
